@@ -11,7 +11,12 @@ VARIABLES sc, l, t0, x
 vars == <<sc, l, t0, x>>
 R == Scens[sc].reset
 Kind == R[1]
-Sweep == Kind = "sqsweep"       \* channel 1 while the sweep unit changes its frequency: events [cycle, value, frequency now]
+\* channel 1 while the sweep unit changes its frequency, or channel 3 while the program rewrites NR33 (without a
+\* trigger): events [cycle, value, frequency now]; the timer is reloaded at every step with the frequency then in effect
+Sweep == Kind \in {"sqsweep", "wavemod"}
+\* machine cycles between steps at frequency f (even f for the wave channel, so that it is a whole number)
+StepCycles(f) == IF Kind = "wavemod" THEN (2048 - f) \div 2 ELSE 2048 - f
+StepMod == IF Kind = "wavemod" THEN 32 ELSE 8
 P == IF Kind = "noise" THEN NoisePeriod(R[2], R[3]) ELSE IF Sweep THEN 4 ELSE Period(Kind, R[2])
 Narrow == Kind = "noise" /\ R[4] = 1
 V0 == R[5]
@@ -32,9 +37,9 @@ Next == /\ l <= Len(Evs) /\ l' = l + 1 /\ UNCHANGED <<sc, t0>>
                 \* 4*(2048-f) clocks = 2048-f machine cycles for the f seen right after that step
                 \* (the frequency is logged at the end of the machine cycle of the step: when a sweep clock changed it
                 \* since the step before, it may have done so just after this step's reload, which then used the old one)
-                /\ (l > 1 => \/ c - Evs[l - 1][1] = 2048 - Evs[l - 1][3]
-                             \/ c - Evs[l - 1][1] = 2048 - (IF l > 2 THEN Evs[l - 2][3] ELSE R[2]))
-                /\ v = ((IF l = 1 THEN V0 ELSE Evs[l - 1][2]) + 1) % 8
+                /\ (l > 1 => \/ c - Evs[l - 1][1] = StepCycles(Evs[l - 1][3])
+                             \/ c - Evs[l - 1][1] = StepCycles(IF l > 2 THEN Evs[l - 2][3] ELSE R[2]))
+                /\ v = ((IF l = 1 THEN V0 ELSE Evs[l - 1][2]) + 1) % StepMod
                 /\ UNCHANGED x
            ELSE IF Kind = "noise"
            THEN /\ Steps(c, t0, P) = l /\ Steps(c - 1, t0, P) = l - 1       \* exactly one LFSR clock per period
@@ -46,7 +51,7 @@ Next == /\ l <= Len(Evs) /\ l' = l + 1 /\ UNCHANGED <<sc, t0>>
                 /\ UNCHANGED x
 \* after the last change nothing more was due until the end of the observation
 TailOK == (l = Len(Evs) + 1 /\ Len(Evs) > 0) =>
-           IF Sweep THEN R[6] - Evs[Len(Evs)][1] < 2048 - Evs[Len(Evs)][3] + 1
+           IF Sweep THEN R[6] - Evs[Len(Evs)][1] < StepCycles(Evs[Len(Evs)][3]) + 1
            ELSE IF Kind = "noise" THEN Steps(R[6], t0, P) = Len(Evs)
            ELSE Evs[Len(Evs)][2] = (V0 + Steps(R[6], t0, P)) % Modulus(Kind)
 Spec == Init /\ [][Next]_vars
